@@ -89,7 +89,7 @@ func init() {
 	// ---- lifecycle: joins, switches, departures, id reuse --------------------
 	reg(&Family{
 		Name: "lifecycle", NConn: 3, Tags: []string{"C07", "C10", "C04"},
-		Doc: "3 connections; join new / join any session ever created (live, or ended: stale or reused id) / join unknown / join own / close",
+		Doc: "3 connections; join new / join any session ever created (live, or ended: stale or reused id) / join unknown / join an id of another server with the numeric part of a live session / join own / close",
 		Enabled: func(m *Model) []Ev {
 			var evs []Ev
 			for c := range m.Conns {
@@ -110,6 +110,9 @@ func init() {
 				}
 				if mc.Sess != nil || c == 0 {
 					evs = append(evs, Ev{K: "join", C: c, X: -2})
+				}
+				if c <= 1 && len(liveSessions(m)) > 0 {
+					evs = append(evs, Ev{K: "join", C: c, X: -3}) // a foreign server's id with the same numeric part
 				}
 				if c == 0 {
 					evs = append(evs, Ev{K: "ping", C: c}) // allowed in and out of a session
@@ -471,10 +474,10 @@ func init() {
 		Cfg: world.Config{Modules: []string{"vikja", "odal"}},
 		Setup: []Ev{
 			{K: "join", C: 0, X: -1}, {K: "join", C: 1, X: -1}, // S0={c0}, S1={c1}
-			{K: "eadd", C: 0, X: 0}, {K: "eadd", C: 1, X: 1}, // entity 1 in each, c1's persistent
+			{K: "eadd", C: 0, X: 0}, {K: "eadd", C: 1, X: 0}, // entity 1 in each, both non-persistent
 			{K: "join", C: 2, X: 1}, // a witness in S1
 		},
-		Doc: "S0={c0}, S1={c1,c2}; entity id 1 exists in both, owned by c0 in S0 and by c1 in S1; c0 moves / deletes / attaches an asset to raw id 1, switches to S1 and back, does the same there (now foreign), frames tick; c1 moves its own entity",
+		Doc: "S0={c0}, S1={c1,c2}; entity id 1 exists in both, owned by c0 in S0 and by c1 in S1; c0 moves / deletes / attaches an asset to raw id 1, switches to S1 and back, does the same there (now foreign), leaves again (a departure removes the leaver's own entities only), frames tick; c1 moves its own entity",
 		Enabled: func(m *Model) []Ev {
 			var evs []Ev
 			if c := m.Conns[0]; c.Open && c.Sess != nil {
